@@ -108,11 +108,12 @@ impl SyncOp {
                 // if the value is the same, there's no conflict
                 if value1 == value2 {
                     // no conflict, but keep the later of the two so that its timestamp still
-                    // takes part in resolving conflicts with other replicas
-                    if timestamp1 < timestamp2 {
-                        (None, Some(operation2))
-                    } else {
-                        (None, None)
+                    // takes part in resolving conflicts with the operations that follow on
+                    // either side, and with other replicas
+                    match timestamp1.cmp(&timestamp2) {
+                        std::cmp::Ordering::Less => (None, Some(operation2)),
+                        std::cmp::Ordering::Equal => (None, None),
+                        std::cmp::Ordering::Greater => (Some(operation1), None),
                     }
                 } else if timestamp1 < timestamp2 || (timestamp1 == timestamp2 && value1 < value2) {
                     // prefer the later modification or, if the timestamps are the same, the
